@@ -3,7 +3,7 @@
 // meets a shape it does not understand reports "unrecognised" with a reason and
 // still emits a file (with the fallback the hand model needs to compile), so
 // that the property then stands on the hand model + correspondence alone.
-package main
+package trlib
 
 import (
 	"crypto/sha256"
@@ -26,35 +26,35 @@ type status struct {
 	Detail string `json:"detail,omitempty"`
 }
 
-type ctx struct {
-	repo   string
-	out    string
-	fset   *token.FileSet
-	status map[string]*status
-	shapes map[string]string // function -> hash of normalised source
+type Ctx struct {
+	Repo   string
+	Out    string
+	Fset   *token.FileSet
+	Status map[string]*status
+	Shapes map[string]string // function -> hash of normalised source
 }
 
-type generator func(c *ctx) error
+type Generator func(c *Ctx) error
 
-var generators = map[string]generator{}
-
-func (c *ctx) parse(rel string) (*ast.File, error) {
-	return parser.ParseFile(c.fset, filepath.Join(c.repo, rel), nil, parser.ParseComments)
+func (c *Ctx) Parse(rel string) (*ast.File, error) {
+	return parser.ParseFile(c.Fset, filepath.Join(c.Repo, rel), nil, parser.ParseComments)
 }
 
-func (c *ctx) write(rel string, content string) error {
-	p := filepath.Join(c.out, rel)
+func (c *Ctx) Write(rel string, content string) error {
+	p := filepath.Join(c.Out, rel)
 	if err := os.MkdirAll(filepath.Dir(p), 0o755); err != nil {
 		return err
 	}
 	return os.WriteFile(p, []byte(content), 0o644)
 }
 
-func (c *ctx) ok(rel string)                  { c.status[rel] = &status{Status: "ok"} }
-func (c *ctx) unrec(rel string, why string)   { c.status[rel] = &status{Status: "unrecognised", Detail: why} }
+func (c *Ctx) Ok(rel string) { c.Status[rel] = &status{Status: "ok"} }
+func (c *Ctx) Unrec(rel string, why string) {
+	c.Status[rel] = &status{Status: "unrecognised", Detail: why}
+}
 
 // funcDecl finds a function or method by name ("Type.Method" or "func").
-func funcDecl(f *ast.File, name string) *ast.FuncDecl {
+func FuncDecl(f *ast.File, name string) *ast.FuncDecl {
 	for _, d := range f.Decls {
 		fd, ok := d.(*ast.FuncDecl)
 		if !ok {
@@ -78,7 +78,7 @@ func funcDecl(f *ast.File, name string) *ast.FuncDecl {
 }
 
 // shape returns a hash of the function's source with comments and formatting normalised.
-func (c *ctx) shape(fd *ast.FuncDecl) string {
+func (c *Ctx) Shape(fd *ast.FuncDecl) string {
 	var sb strings.Builder
 	cp := *fd
 	cp.Doc = nil
@@ -87,36 +87,37 @@ func (c *ctx) shape(fd *ast.FuncDecl) string {
 	return hex.EncodeToString(h[:8])
 }
 
-func (c *ctx) recordShapes(rel string, f *ast.File, names ...string) {
+func (c *Ctx) RecordShapes(rel string, f *ast.File, names ...string) {
 	for _, n := range names {
-		fd := funcDecl(f, n)
+		fd := FuncDecl(f, n)
 		if fd == nil {
-			c.shapes[rel+":"+n] = "missing"
+			c.Shapes[rel+":"+n] = "missing"
 			continue
 		}
-		c.shapes[rel+":"+n] = c.shape(fd)
+		c.Shapes[rel+":"+n] = c.Shape(fd)
 	}
 }
 
-func exprString(e ast.Expr) string {
+func ExprString(e ast.Expr) string {
 	var sb strings.Builder
 	_ = format.Node(&sb, token.NewFileSet(), e)
 	return sb.String()
 }
 
-func coqBool(b bool) string {
+func CoqBool(b bool) string {
 	if b {
 		return "true"
 	}
 	return "false"
 }
 
-func coqString(s string) string {
+func CoqString(s string) string {
 	// Coq string literal: double the quotes
 	return "\"" + strings.ReplaceAll(s, "\"", "\"\"") + "\""
 }
 
-func main() {
+// Main runs the given generators and prints the JSON status.
+func Main(generators map[string]Generator) {
 	repo := flag.String("repo", "/repo", "repository root")
 	out := flag.String("out", "", "output directory (mirrors /verif/coq)")
 	flag.Parse()
@@ -124,7 +125,7 @@ func main() {
 		fmt.Fprintln(os.Stderr, "need -out")
 		os.Exit(2)
 	}
-	c := &ctx{repo: *repo, out: *out, fset: token.NewFileSet(), status: map[string]*status{}, shapes: map[string]string{}}
+	c := &Ctx{Repo: *repo, Out: *out, Fset: token.NewFileSet(), Status: map[string]*status{}, Shapes: map[string]string{}}
 	names := make([]string, 0, len(generators))
 	for n := range generators {
 		names = append(names, n)
@@ -132,10 +133,10 @@ func main() {
 	sort.Strings(names)
 	for _, n := range names {
 		if err := generators[n](c); err != nil {
-			c.status["generator:"+n] = &status{Status: "unrecognised", Detail: err.Error()}
+			c.Status["generator:"+n] = &status{Status: "unrecognised", Detail: err.Error()}
 		}
 	}
-	res := map[string]interface{}{"files": c.status, "shapes": c.shapes}
+	res := map[string]interface{}{"files": c.Status, "shapes": c.Shapes}
 	b, _ := json.MarshalIndent(res, "", " ")
 	fmt.Println(string(b))
 }
